@@ -1136,6 +1136,30 @@ func (st *lsmState) resurrectClass(x *seqExec, k string, got, want readObs, clas
 	return class
 }
 
+// staleDuplicateClass refines the failure class of known finding F20: the same key AND version sits in
+// two level-0 tables (a value-log GC rewrite re-inserts key@version with a new value pointer), an
+// L0->L0 compaction left the recent table out and put its merged output "in front" of it, and the
+// read returns the older copy (whose value pointer leads into a value-log file that is gone).  The
+// class applies only when the version read is the right one, the value is not, and that key@version
+// is present in more than one level-0 table.
+func (st *lsmState) staleDuplicateClass(x *seqExec, k string, got, want readObs) string {
+	if want.Val == "<nil>" || got.Ver != want.Ver || got.Val == want.Val {
+		return ""
+	}
+	n := 0
+	for _, t := range dumpLevels(x.db)[0] {
+		for _, e := range t.Entries {
+			if strings.HasPrefix(e, fmt.Sprintf("%s@%d:", k, want.Ver)) {
+				n++
+			}
+		}
+	}
+	if n >= 2 {
+		return "same-version-duplicate/older-copy-wins-after-l0-to-l0"
+	}
+	return ""
+}
+
 // managedResurrectClass refines the failure class of known finding F18: in managed mode a delete
 // marker at version V was physically dropped by a compaction (it is at or below the discard
 // timestamp and nothing BELOW it overlaps), while an older version of the key that the caller
@@ -1144,6 +1168,9 @@ func (st *lsmState) resurrectClass(x *seqExec, k string, got, want readObs, clas
 // deleted, the value read is an older version written after the delete marker, and the marker is no
 // longer anywhere in the tree.
 func (st *lsmState) managedResurrectClass(x *seqExec, k string, ts uint64, got, want readObs, class string) string {
+	if c := st.staleDuplicateClass(x, k, got, want); c != "" {
+		return c
+	}
 	if want.Val != "<nil>" || got.Val == "<nil>" {
 		return class
 	}
